@@ -536,9 +536,19 @@ package actor
 //@   ensures len(s.behaviors) == 0 ==> result == nil
 //@   ensures len(s.behaviors) > 0 ==> result == s.behaviors[len(s.behaviors) - 1]
 // the core's handlers for its own messages: trusted frames here (C05/C06/C08/C09 look inside some of them)
+// what doKill needs of a context
+//@ pure killOK(c *Context) bool = watchersOK(c) && schedok(c) && zombieNoJobs(c) && released1(c) && killedMsgOK(c) &&
+//@     c.system.futureAgents != nil && !held(c.system.futureLock) && regfut(c.system) &&
+//@     forall p string :: p in c.children ==> c.children[p] != nil && (typeis(c.children[p], "*actor.Ref") ==> !nilptr(c.children[p]))
+// onKill: a kill takes effect ONCE - only a running actor (running -> killing) or a zombie goes on to doKill; an
+// actor that is already stopping or dead ignores further kills (nobody is told anything again)
 //@ func (*Context).onKill
-//@   trusted
-//@   modifies anyold, gmap(told), gmap(toldn), gmap(tells), gmap(unregistered), gmap(unsuball), gmap(published), gmap(resumes), gmap(pauses), gmap(failures), ghost(calls_behavior)
+//@   funcspec behavior preserves ctxwf(c), watchersOK(c), schedok(c), zombieNoJobs(c), released1(c), c.zombie, c.state, c.restarting, c.ref, c.parent, c.system, c.options, c.mailbox, c.watchers, c.children, c.envelop, c.actor, c.behaviorStack, c.scheduler
+//@   requires ctxwf(c) && message != nil && c.envelop != nil && behavior != nil && killOK(c)
+//@   modifies c.children[*], c.state, c.envelop, c.actor, c.behaviorStack.behaviors, c.zombie, c.restarting, c.scheduler.jobKeys[*], anyold, gmap(told), gmap(toldn), gmap(tells), gmap(unregistered), gmap(unsuball), gmap(published), gmap(resumes), gmap(deleted), gmap(schedtried), gmap(scheduled), gmap(chclosed), gmap(piped), gmap(pipedn), gmap(failures), gmap(pauses), ghost(calls_closer), ghost(calls_behavior)
+//@   ensures  !old(c.zombie) && old(c.state) != 0 ==> (forall r vivid.ActorRef, k mathint :: gcount(told, r, k) == old(gcount(told, r, k))) && c.state == old(c.state) &&
+//@            gcount(unregistered, c) == old(gcount(unregistered, c)) && ghost(calls_behavior) == old(ghost(calls_behavior))
+//@   ensures  gcount(unregistered, c) <= old(gcount(unregistered, c)) + 1
 // the pause / resume commands a supervisor sends (C09): a pause command pauses THIS actor's mailbox once, a resume
 // command resumes it once; nothing else is paused or resumed, nobody is told anything
 //@ func (*Context).onCommand
@@ -580,11 +590,12 @@ package actor
 //@   requires ctxwf(c) && watchersOK(c) && envelop != nil && ctxwf(c.system.Context) && schedok(c) && zombieNoJobs(c) && released1(c)
 //@   requires len(c.behaviorStack.behaviors) > 0 && c.behaviorStack.behaviors[len(c.behaviorStack.behaviors) - 1] != nil
 //@   requires !nilptr(envMessage(envelop)) && envSender(envelop) != nil && !nilptr(envSender(envelop))
+//@   requires typeis(envMessage(envelop), "*vivid.OnKill") ==> killOK(c)
 //@   requires typeis(envMessage(envelop), "*actor.supervisionContext") ==> superviseOK(c, unboxed(envMessage(envelop), "*actor.supervisionContext"))
 //@   requires typeis(envMessage(envelop), "*actor.SchedulerMessage") ==> !typeis(unboxed(envMessage(envelop), "*actor.SchedulerMessage").Message, "*vivid.OnKilled")
 //@   requires typeis(envMessage(envelop), "*vivid.OnKilled") ==> unboxed(envMessage(envelop), "*vivid.OnKilled").Ref != nil &&
 //@            (typeis(unboxed(envMessage(envelop), "*vivid.OnKilled").Ref, "*actor.Ref") ==> !nilptr(unboxed(envMessage(envelop), "*vivid.OnKilled").Ref))
-//@   modifies anyold, c.envelop, gmap(consulted), gmap(deleted), gmap(schedtried), gmap(scheduled), gmap(selftold), gmap(told), gmap(toldn), gmap(tells), gmap(unregistered), gmap(unsuball), gmap(published), gmap(resumes), gmap(pauses), gmap(failures), ghost(calls_behavior)
+//@   modifies anyold, c.envelop, gmap(consulted), gmap(deleted), gmap(schedtried), gmap(scheduled), gmap(chclosed), gmap(piped), gmap(pipedn), ghost(calls_closer), gmap(selftold), gmap(told), gmap(toldn), gmap(tells), gmap(unregistered), gmap(unsuball), gmap(published), gmap(resumes), gmap(pauses), gmap(failures), ghost(calls_behavior)
 // a dead letter that itself cannot be delivered (the root has stopped) is dropped: no further work
 //@   ensures  old(deadFor(c, envelop)) && typeis(envMessage(envelop), "ves.DeathLetterEvent") ==>
 //@            (forall d *Context, t mathint :: gcount(selftold, d, t) == old(gcount(selftold, d, t))) && ghost(calls_behavior) == old(ghost(calls_behavior))
